@@ -33,7 +33,7 @@ for pid in ALL:
           'text': mod.LEVEL_TEXT,
           'design_ref': f'DESIGN.md section 4, {pid}',
       },
-      'level_note': mod.LEVEL_NOTE,
+      'level_note': mod.LEVEL_NOTE + ' The source is analysed in a canonical form (sa/normalize.py); construction obligations that were seen to report on behaviour-preserving refactorings are advisory (sa/advisory.py: printed as NOTE, decided by the named tables instead); a table row the interpreter cannot decide is an ANALYSIS-ERROR, never a VIOLATION.',
       'technique': mod.TECHNIQUE,
   })
 manifest = {
